@@ -188,6 +188,7 @@ fn universe<'a>(tier: Tier, fds: &'a FdTable, capped: &mut bool, report: &Report
     }
     let mut seen = std::collections::BTreeSet::new();
     let mut out = vec![];
+    let mut unbuildable: Vec<String> = vec![];
     for r in rvs {
         let sig = r.ty().sig();
         if !seen.insert(format!("{sig}:{}", r.show())) {
@@ -199,8 +200,19 @@ fn universe<'a>(tier: Tier, fds: &'a FdTable, capped: &mut bool, report: &Report
                 let held = from_value(&val, &|raw| fd_by_inode(fds, raw)).unwrap_or_else(|e| vcommon::machinery_failure(&format!("C08: cannot read back {}: {e}", r.show())));
                 out.push(Item { rv: r, held, sig, val, fd_mode });
             }
-            Err(e) => vcommon::machinery_failure(&format!("C08: cannot build {}: {e}", r.show())),
+            Err(e) => {
+                // A well-typed value the public constructors refuse: not a law of this property, but
+                // it must not hide the laws on the other values. Leave it out and say so.
+                unbuildable.push(format!("{sig}:{} ({e})", r.show()));
+            }
         }
+    }
+    if !unbuildable.is_empty() {
+        report.cap(format!(
+            "{} well-typed values could not be built through the public constructors and are left out, e.g. {}",
+            unbuildable.len(),
+            unbuildable[0]
+        ));
     }
     // owned fds (dups of the table's files): the same RV as the borrowed ones, held differently
     for i in 0..fds.fds.len() as u32 {
